@@ -176,9 +176,9 @@ FINDINGS = {'KF-CHORDREST': f_chordrest}
 def run(ctx):
     n = 80 if ctx.quick else 2200
     from .. import realscores as RS
-    fs = RS.files(max_bytes=25000 if ctx.quick else 60000)
-    # the repository's own sample scores: every shard takes its share (all of them in the thorough tier, a seed-dependent third in quick)
-    mine = [f for i, f in enumerate(fs) if i % ctx.nshards == ctx.shard and (not ctx.quick or (i // ctx.nshards + ctx.seed) % 3 == 0)]
+    fs = RS.files(max_bytes=20000 if ctx.quick else 60000)
+    # the repository's own sample scores: every shard takes its share (all of them in the thorough tier, a seed-dependent quarter in quick)
+    mine = [f for i, f in enumerate(fs) if i % ctx.nshards == ctx.shard and (not ctx.quick or (i // ctx.nshards + ctx.seed) % 4 == 0)]
     ctx.check_all([{'real': f} for f in mine], check_real)
     ctx.run_hypothesis(doc_pairs(D.profile('full', chord_optional_dur=True, hidden_bars=True)), check, max_examples=n, label='full')
     ctx.run_hypothesis(doc_pairs(D.profile('chordrest', kern_weight=6)), check, max_examples=max(15, n // 6), salt=1,
